@@ -455,7 +455,7 @@ def run_scale_job(job, prop, seed, tag):
                 def suspicious(a, b):
                     factor_bad = b["collect_cpu_us"] > 3 * (n16 / n4) * a["collect_cpu_us"] + 100000
                     per_elem = b["collect_cpu_us"] / max(1, b["n"] + b["edges"])
-                    return factor_bad and per_elem > 5.0, per_elem
+                    return factor_bad and per_elem > 2.0, per_elem
                 bad, per_elem = suspicious(a, b)
                 note = {"shape": sh, "n_small": n4, "n_large": n16, "cpu_us_small": a["collect_cpu_us"], "cpu_us_large": b["collect_cpu_us"], "us_per_element_large": round(per_elem, 3)}
                 results[0].summary.setdefault("extra", {})
